@@ -79,7 +79,11 @@ type c01issCase struct {
 	AcctSeed         map[string]string `json:"acct_seed,omitempty"`   // e-mail -> full | regonly: account already in storage
 	CancelWait       map[string]int    `json:"cancel_wait,omitempty"` // tid -> cancel the request after it has been waiting for its lock for that many steps of others
 	Backend          string            `json:"backend,omitempty"`     // "" in-memory Locker double | "file": the real FileStorage behind the gate
-	Class            string            `json:"class"`
+	// file back-end: the instance that held the turn of thread 0's lock died and left its lock file behind:
+	// "empty" (killed between the O_EXCL create and the write of the timestamp), "stale" (timestamp an hour old),
+	// "fresh" (timestamp of this moment: the waiters take over after the staleness bound of 2 x 5 s)
+	CrashLock string `json:"crash_lock,omitempty"`
+	Class     string `json:"class"`
 }
 
 type c01issStep struct {
@@ -985,6 +989,15 @@ func c01RunIssCase(cs c01issCase) (*c01issObs, error) {
 			e.threads = append(e.threads, rt)
 		}
 		if err != nil {
+			return nil, err
+		}
+	}
+	if cs.CrashLock != "" {
+		fb, ok := e.b.(*c01FileBackend)
+		if !ok || len(e.threads) == 0 {
+			return nil, fmt.Errorf("crash_lock needs the file back-end")
+		}
+		if err := fb.leaveLockFile(e.threads[0].lockKey, cs.CrashLock); err != nil {
 			return nil, err
 		}
 	}
